@@ -180,7 +180,7 @@ def run_auth(methods, cond, prov_kind, ch, ur=None):
                     if not cookie_usable(cond):
                         viol.append(('authchallenge-without-valid-cookie', cond, 'AUTHCHALLENGE sent although the cookie is %s' % cond))
                     sn = bytes(range(200, 232))
-                    c = ch.choose(7, 'AUTHCHALLENGE')
+                    c = ch.choose(10, 'AUTHCHALLENGE')
                     good = safecookie.server_hash(COOKIE, cn, sn)
                     verifiable = False
                     if c == 0:
@@ -198,8 +198,14 @@ def run_auth(methods, cond, prov_kind, ch, ur=None):
                         reply = (250, [('line', 'AUTHCHALLENGE SERVERHASH=%s SERVERNONCE=%s' % (hexl(good)[:-1], hexl(sn)))])
                     elif c == 5:
                         reply = (512, [('line', 'Invalid base16 client nonce')])
-                    else:
+                    elif c == 6:
                         reply = 'drop'
+                    elif c == 7:      # empty hash
+                        reply = (250, [('line', 'AUTHCHALLENGE SERVERHASH= SERVERNONCE=%s' % hexl(sn))])
+                    elif c == 8:      # a proper prefix of the right hash
+                        reply = (250, [('line', 'AUTHCHALLENGE SERVERHASH=%s SERVERNONCE=%s' % (hexl(good[:16]), hexl(sn)))])
+                    else:             # the right hash with trailing garbage
+                        reply = (250, [('line', 'AUTHCHALLENGE SERVERHASH=%s SERVERNONCE=%s' % (hexl(good + b'\x00'), hexl(sn)))])
                     challenge = (cn, sn, verifiable)
                 elif cmd == 'AUTHENTICATE':
                     arg = line[len('AUTHENTICATE'):].strip()
